@@ -159,7 +159,10 @@ def _realise(x, vb):
 def _regs(M1, m1, M2, m2, M3, m3):
     """Registrations of this partition: SEL['pat'] gives the plugin-name index per registration."""
     pat = SEL.get("pat", "000")
-    vs = [(M1, m1, 0), (M2, m2, 0), (M3, m3, 0)]
+    if SEL.get("vary") == "mp":  # the two symbolic components are (minor, patch) of major 0 (seeding round 5)
+        vs = [(0, M1, m1), (0, M2, m2), (0, M3, m3)]
+    else:
+        vs = [(M1, m1, 0), (M2, m2, 0), (M3, m3, 0)]
     return [(NAMES[int(c)], vs[i]) for i, c in enumerate(pat)]
 
 
